@@ -85,20 +85,23 @@ Definition spaced (a : N) (ops : list op) : Prop := spaced_from a None ops.
 
 (* ---- boolean checkers (position of the first offending event) ---- *)
 
-(* windows starting at event 0 of [evs] for its address *)
-Fixpoint env_scan (a : N) (t0 : Z) (n : Z) (evs : list ev) : bool :=
+(* windows starting at event 0 of [evs] for its address; [tol] ns of slack on
+   the window length (0 for virtual-clock traces, the measurement error bound
+   for real-time device traces) *)
+Fixpoint env_scan_tol (tol : Z) (a : N) (t0 : Z) (n : Z) (evs : list ev) : bool :=
   match evs with
   | [] => true
   | (b, t, d) :: r =>
       if N.eqb b a && d
-      then ((n + 1) * cost <=? maxTokens + (t - t0)) && env_scan a t0 (n + 1) r
-      else env_scan a t0 n r
+      then ((n + 1) * cost <=? maxTokens + (t - t0) + tol) && env_scan_tol tol a t0 (n + 1) r
+      else env_scan_tol tol a t0 n r
   end.
-Fixpoint envelope_chk (evs : list ev) (i : N) : option N :=
+Fixpoint envelope_chk_tol (tol : Z) (evs : list ev) (i : N) : option N :=
   match evs with
   | [] => None
-  | (a, t, _) :: r => if env_scan a t 0 evs then envelope_chk r (i + 1)%N else Some i
+  | (a, t, _) :: r => if env_scan_tol tol a t 0 evs then envelope_chk_tol tol r (i + 1)%N else Some i
   end.
+Definition envelope_chk (evs : list ev) (i : N) : option N := envelope_chk_tol 0 evs i.
 
 Fixpoint lookup_sp (a : N) (l : list (N * (Z * bool))) : option (Z * bool) :=
   match l with
@@ -114,6 +117,26 @@ Fixpoint spaced_chk (st : list (N * (Z * bool))) (evs : list ev) (i : N) : optio
                 | Some (tl, f) => f && (tl + cost <? t)
                 end in
       if fl && negb d then Some i else spaced_chk ((a, (t, fl)) :: st) r (i + 1)%N
+  end.
+
+(* "Entries of idle addresses are forgotten": right after a collection pass at
+   time t the table holds no address idle for more than garbageCollectTime,
+   i.e. at most the addresses whose last arrival l satisfies t - l <= gcTime.
+   [st] = last arrival per address (newest binding first). *)
+Fixpoint dedup_count (t : Z) (st : list (N * (Z * bool))) (seen : list N) : N :=
+  match st with
+  | [] => 0%N
+  | (a, (l, _)) :: r =>
+      if existsb (N.eqb a) seen then dedup_count t r seen
+      else ((if (t - l <=? gcTime)%Z then 1 else 0) + dedup_count t r (a :: seen))%N
+  end.
+Fixpoint forgotten_chk (st : list (N * (Z * bool))) (ops : list op) (rs : list res) (i : N) : option N :=
+  match ops, rs with
+  | Arrive a t :: ops', _ :: rs' => forgotten_chk ((a, (t, true)) :: st) ops' rs' (i + 1)%N
+  | Gc t :: ops', Len n :: rs' =>
+      if (n <=? dedup_count t st [])%N then forgotten_chk st ops' rs' (i + 1)%N else Some i
+  | Gc _ :: ops', _ :: rs' => Some i
+  | _, _ => None
   end.
 
 Fixpoint first_diff (x y : list bool) (i : N) : option N :=
@@ -134,3 +157,11 @@ Definition holds_chk (evs : list ev) (nogc : list bool) (a : N) (alone : list bo
   (match first_diff (decs_of a evs) alone 0 with Some i => [(4, i)%N] | None => [] end).
 Definition holdsb evs nogc a alone : bool :=
   match holds_chk evs nogc a alone with [] => true | _ => false end.
+
+(* time of the last arrival of [a] in a history ([acc] = before the history) *)
+Fixpoint last_arr (a : N) (h : list op) (acc : option Z) : option Z :=
+  match h with
+  | [] => acc
+  | Arrive b t :: r => last_arr a r (if N.eqb b a then Some t else acc)
+  | Gc _ :: r => last_arr a r acc
+  end.
